@@ -16,9 +16,12 @@ Definition probe (e : pexpr) (envs : list (list val)) :=
 
 (* a std function call (math.*, text.*: an RQ operator that is not produced by ast_expand) applied to operator
    expressions: the arguments are resolved on their own, the call node itself is not folded by static_eval *)
+Definition probe_call_dialect (dialect : str) (r : rexpr) :=
+  (option_map (fun n : node => render_top (fst (fst n), snd (fst n))) (translate dialect (rsize r) r),
+   map fst (filter (fun tv => negb (verdict_ok (snd tv))) (tree_triples dialect 1 r))).   (* fuel 1: the call node's own sites *)
 Definition probe_call (name : str) (args : list pexpr) :=
   let r := ROp name (map (fun e => normalize (resolve e)) args) in
-  [probe_dialect d_sqlite r; probe_dialect d_generic r].
+  [probe_call_dialect d_sqlite r; probe_call_dialect d_generic r].
 
 (* `derive d = e1 | select {v = e2}`: both expressions are resolved (and folded) on their own; the SQL
    generator then inlines the definition of column d (index 3) where it is referenced.  Only for
